@@ -156,6 +156,14 @@ def make_cases(rng, tier):
             add("shape-permuted", [a], [a.reshape(shp[::-1])], tols=TOLS[:2])
         add("shape-extra-axis", [a], [a.reshape((1,) + shp)], tols=TOLS[:2])
         add("shape-flattened", [a.reshape(-1, 1)], [a.reshape(-1)], tols=TOLS[:2])
+        # single-element and empty outputs: same data, different shape (boundary sizes 1 and 0)
+        one = np.array(rng.choice([1.5, -2.25, 0.0]), np.float32)
+        add("shape-scalar-vs-1", [one.reshape(())], [one.reshape((1,))], tols=TOLS[:2])
+        add("shape-1-vs-scalar", [one.reshape((1,))], [one.reshape(())], tols=TOLS[:2])
+        add("shape-scalar-vs-1x1", [one.reshape(())], [one.reshape((1, 1))], tols=TOLS[:2])
+        add("shape-1x1-vs-1", [one.reshape((1, 1))], [one.reshape((1,))], tols=TOLS[:2])
+        add("shape-1-int-vs-1x1-int", [np.array([7], np.int32)], [np.array([[7]], np.int32)], tols=TOLS[:1])
+        add("shape-empty-0-vs-0x2", [np.zeros((0,), np.float32)], [np.zeros((0, 2), np.float32)], tols=TOLS[:1])
         # --- output count
         add("output-dropped", [a, a], [a], tols=TOLS[:2])
         add("output-duplicated", [a], [a, a], tols=TOLS[:2])
